@@ -188,15 +188,19 @@ Combine ==
   /\ Emit("COMBINE", c')
 
 (* --- space-time initial condition ---------------------------------------- *)
-\* the time axis carries a uniform open knot vector of degree p with nsp spans on [ta, tb]
+\* the time axis carries an open knot vector of degree p with nsp = n - p spans on [ta, tb]: uniform, or (graded) with
+\* the breakpoints ta + (tb - ta) k (k + 1) / (nsp (nsp + 1)), so that the first and the last span differ in width;
+\* the derivative at an end involves the width of the span AT THAT END only
 Intervals == <<<<0, 1>>, <<0, 2>>, <<1, 3>>>>
-InitCase(s, tax, side, iv, physical) ==
+InitCase(s, tax, side, iv, physical, graded) ==
   LET ax1 == tax + 1
       n   == s.shape[ax1]
       p   == s.deg[ax1]
       ta  == Intervals[iv][1]
       tb  == Intervals[iv][2]
-      h   == Q(tb - ta, n - p)                       \* first / last knot span
+      nsp == n - p
+      h   == IF ~graded THEN Q(tb - ta, nsp)         \* width of the knot span at the face
+             ELSE IF side = 0 THEN Q(2 * (tb - ta), nsp * (nsp + 1)) ELSE Q(2 * (tb - ta), nsp + 1)
       hp  == Div(h, R(p))
       first == IF side = 0 THEN 0 ELSE n - 2
       s0  == SliceDofs(ax1, first, s.shape, NoFlip(s.D))
@@ -207,15 +211,16 @@ InitCase(s, tax, side, iv, physical) ==
       v0  == [k \in 1..M |-> IF side = 0 THEN g0[k] ELSE Sub(g0[k], Mul(hp, g1[k]))]
       v1  == [k \in 1..M |-> IF side = 0 THEN Add(g0[k], Mul(hp, g1[k])) ELSE g0[k]]
   IN [kind |-> "init", D |-> s.D, shape |-> s.shape, deg |-> s.deg, tax |-> tax, side |-> side,
-      ta |-> ta, tb |-> tb, physical |-> physical, p |-> p, h |-> h,
+      ta |-> ta, tb |-> tb, physical |-> physical, graded |-> graded, p |-> p, h |-> h,
       g0 |-> [k \in 1..M |-> g0[k][1]], g1 |-> [k \in 1..M |-> g1[k][1]],
       entries |-> [q \in 1..(2 * M) |-> IF q <= M THEN [dof |-> s0[q], val |-> v0[q]]
                                         ELSE [dof |-> s1[q - M], val |-> v1[q - M]]]]
 InitCond ==
   /\ phase = "space" /\ "init" \in Parts /\ sp.D >= 2
-  /\ \E tax \in 0..(sp.D - 1), side \in {0, 1}, iv \in 1..Len(Intervals), ph \in BOOLEAN :
+  /\ \E tax \in 0..(sp.D - 1), side \in {0, 1}, iv \in 1..Len(Intervals), ph \in BOOLEAN, gr \in BOOLEAN :
        /\ ph => tax = 0                         \* G(x,t) = (G~(x), t): time is the last physical coordinate
-       /\ c' = InitCase(sp, tax, side, iv, ph)
+       /\ gr => (sp.shape[tax + 1] - sp.deg[tax + 1] >= 2 /\ iv = 2)    \* grading needs >= 2 spans; one interval suffices
+       /\ c' = InitCase(sp, tax, side, iv, ph, gr)
   /\ phase' = "case" /\ UNCHANGED sp
   /\ Emit("INIT", c')
 
